@@ -41,6 +41,10 @@ def measure():
     st["nfds"] = len(os.listdir("/proc/self/fd"))
     st["cwd"] = os.getcwd()
     st["filters"] = [str(f) for f in warnings.filters]
+    # the list object and the functions that show a warning: a catch_warnings block that is never left
+    # leaves a copy of the list and the recording function behind
+    st["warn_hooks"] = [id(warnings.filters), id(warnings.showwarning), id(getattr(warnings, "_showwarnmsg_impl", None))]
+    st["breakpointhook"] = id(sys.breakpointhook)
     st["pdb"] = id(pdb.set_trace)
     st["registry"] = sum(len(v) for v in COLLECTED_TASKS.values())
     return st
@@ -49,6 +53,9 @@ def measure():
 def one_build(proj, spec):
     import pytask
     kw = dict(spec.get("kwargs", {}))
+    if kw.pop("memdb", False):
+        from sqlalchemy.engine import make_url
+        kw["database_url"] = make_url("sqlite://")       # in memory: nothing is remembered from build to build
     buf = io.StringIO()
     s = pytask.build(paths=[Path(proj) / spec["kind"]], **kw)
     return {"exit": int(s.exit_code), "ntasks": len([t for t in getattr(s, "tasks", []) if not t.name.split("::")[-1].startswith("child")]),
